@@ -241,5 +241,99 @@ theorem idAsgn_den (x y : String) (hx : x ≠ "") (hy : y ≠ "") :
             rw [this, if_neg huy]
       · rw [if_neg hvx, if_neg hvx]
 
+/-! ## `unary_asgn` is the documented rewriting -/
+
+theorem unaryAsgn_const (idx : Nat) (x op : String) (e : Node) (ty v : String)
+    (he : e.rmCast = .const ty v) :
+    Analysis.unaryAsgn idx x op e = .ok (some (idx, Analysis.constAsgn x)) := by
+  unfold Analysis.unaryAsgn
+  simp only [he]
+  simp [bind, Except.bind, pure, Except.pure]
+
+theorem unaryAsgn_not (idx : Nat) (x : String) (e : Node) :
+    Analysis.unaryAsgn idx x "!" e = .ok (some (idx, Analysis.constAsgn x)) := by
+  unfold Analysis.unaryAsgn
+  cases he : e.rmCast <;>
+    simp [Gen.incDec, Gen.opMinus, Gen.opPlus, Gen.opNeg, Gen.opSizeof, bind, Except.bind, pure, Except.pure]
+
+theorem unaryAsgn_sizeof (idx : Nat) (x : String) (e : Node) :
+    Analysis.unaryAsgn idx x "sizeof" e = .ok (some (idx, Analysis.constAsgn x)) := by
+  unfold Analysis.unaryAsgn
+  cases he : e.rmCast <;>
+    simp [Gen.incDec, Gen.opMinus, Gen.opPlus, Gen.opSizeof, bind, Except.bind, pure, Except.pure]
+
+theorem unaryAsgn_minus (idx : Nat) (x : String) (e : Node) (y : String) (he : e.rmCast = .id y) :
+    Analysis.unaryAsgn idx x "-" e = (do
+      let (i1, rl) ← Analysis.binaryOp idx x "*" (.id y) (.const "int" "-1")
+      pure (some (i1, rl))) := by
+  unfold Analysis.unaryAsgn
+  simp only [he]
+  simp [Gen.incDec, Gen.opMinus, Gen.opPlus, Gen.opNeg, Gen.opSizeof, Gen.opMult]
+
+theorem unaryAsgn_plus (idx : Nat) (x : String) (e : Node) (y : String) (he : e.rmCast = .id y) :
+    Analysis.unaryAsgn idx x "+" e = (do
+      let rl ← Analysis.idAsgn x y
+      pure (some (idx, rl))) := by
+  unfold Analysis.unaryAsgn
+  simp only [he]
+  simp [Gen.incDec, Gen.opMinus, Gen.opPlus, Gen.opNeg, Gen.opSizeof]
+
+theorem lastChar_postInc : String.ofList ("p++".toList.drop ("p++".length - 1)) = "+" := by decide
+theorem lastChar_postDec : String.ofList ("p--".toList.drop ("p--".length - 1)) = "-" := by decide
+theorem lastChar_preInc : String.ofList ("++".toList.drop ("++".length - 1)) = "+" := by decide
+theorem lastChar_preDec : String.ofList ("--".toList.drop ("--".length - 1)) = "-" := by decide
+
+theorem incDecParts_id (op : String) (e : Node) (y : String) (he : e.rmCast = .id y) :
+    Analysis.incDecParts op e = .ok (y, String.ofList (op.toList.drop (op.length - 1))) := by
+  unfold Analysis.incDecParts; rw [he]; rfl
+
+theorem unaryAsgn_postInc (idx : Nat) (x : String) (e : Node) (y : String) (he : e.rmCast = .id y) :
+    Analysis.unaryAsgn idx x "p++" e = (do
+      let (i1, fst) ← Analysis.binaryOp idx y "+" (.id y) (.const "int" "1")
+      let snd ← Analysis.idAsgn x y
+      pure (some (i1, Analysis.composeAll [snd, fst]))) := by
+  unfold Analysis.unaryAsgn
+  simp only [he]
+  have hr : (Node.id y).rmCast = .id y := rfl
+  simp [Gen.incDec, Gen.prefixOps, Gen.opMinus, Gen.opPlus, Gen.opNeg, Gen.opSizeof,
+    incDecParts_id _ _ y hr]
+  rfl
+
+theorem unaryAsgn_postDec (idx : Nat) (x : String) (e : Node) (y : String) (he : e.rmCast = .id y) :
+    Analysis.unaryAsgn idx x "p--" e = (do
+      let (i1, fst) ← Analysis.binaryOp idx y "-" (.id y) (.const "int" "1")
+      let snd ← Analysis.idAsgn x y
+      pure (some (i1, Analysis.composeAll [snd, fst]))) := by
+  unfold Analysis.unaryAsgn
+  simp only [he]
+  have hr : (Node.id y).rmCast = .id y := rfl
+  simp [Gen.incDec, Gen.prefixOps, Gen.opMinus, Gen.opPlus, Gen.opNeg, Gen.opSizeof,
+    incDecParts_id _ _ y hr]
+  rfl
+
+theorem unaryAsgn_preInc (idx : Nat) (x : String) (e : Node) (y : String) (he : e.rmCast = .id y) :
+    Analysis.unaryAsgn idx x "++" e = (do
+      let (i1, fst) ← Analysis.binaryOp idx y "+" (.id y) (.const "int" "1")
+      let snd ← Analysis.idAsgn x y
+      pure (some (i1, Analysis.composeAll [fst, snd]))) := by
+  unfold Analysis.unaryAsgn
+  simp only [he]
+  have hr : (Node.id y).rmCast = .id y := rfl
+  simp [Gen.incDec, Gen.prefixOps, Gen.opMinus, Gen.opPlus, Gen.opNeg, Gen.opSizeof,
+    incDecParts_id _ _ y hr]
+  rfl
+
+theorem unaryAsgn_preDec (idx : Nat) (x : String) (e : Node) (y : String) (he : e.rmCast = .id y) :
+    Analysis.unaryAsgn idx x "--" e = (do
+      let (i1, fst) ← Analysis.binaryOp idx y "-" (.id y) (.const "int" "1")
+      let snd ← Analysis.idAsgn x y
+      pure (some (i1, Analysis.composeAll [fst, snd]))) := by
+  unfold Analysis.unaryAsgn
+  simp only [he]
+  have hr : (Node.id y).rmCast = .id y := rfl
+  simp [Gen.incDec, Gen.prefixOps, Gen.opMinus, Gen.opPlus, Gen.opNeg, Gen.opSizeof,
+    incDecParts_id _ _ y hr]
+  rfl
+
 end Refine
 end Mwp
